@@ -124,16 +124,29 @@ ROUND7_FIX = {
  "C15n": "no archive of the corruption leg had chunk hashes shorter than 8 bytes -> the 4-byte base of C04 is part of it (the error of a failed verification is formatted, as the CLI does)",
  "C17n": "no archive of C17 described a source beyond 4 GiB -> a 3 MiB archive of three stored chunks describing 4 100 MiB + 12 345 bytes (a chunk ends exactly at offset 2^32), local and HTTP, comparing sink",
 }
+ROUND8_FIX = {
+ "C01o": "C01 left in-place layouts to C03 -> the L0 pairs (<= 4 chunks of sizes 1-3, real planner and executor) are a leg of C01 too, judged by the final bytes",
+ "C05o": "C05's crash enumeration re-ran over the remains of ITS OWN first run only -> the in-place run over every prior layout of <= 4 chunks (whatever an interrupted run of this or another image left) is a leg of C05",
+ "C05p": "(same)",
+ "C06o": "no transfer of C06 ever failed -> on the grid cells that carry a retry budget the first chunk-data response is cut after 2 bytes; the follow-up request is modelled (rest of that run and no more)",
+ "C07o": "two seeds were only given as two files -> grid seed kinds 'file + stdin' and 'stdin + file' (both orders of the options), together holding every chunk; C07 also reports bytes fetched beyond the missing chunks",
+ "C10o": "every configuration of C10's command-line leg had its minimum above the window -> RollSum / BuzHash with the minimum below the window",
+ "C12o": "every archive of a group was written under one set of options per process -> for every ordered pair of 10 option tuples a fresh process writes both archives; the second must equal the one written alone",
+ "C16o": "the output was never a symbolic link with a relative target outside the current directory -> mode force-symlink-elsewhere",
+ "C16p": "no output path left a symlinked directory through `..` -> mode in-place-dotdot-through-symlink (the strace observer itself folded `..` textually and had to be corrected first)",
+}
 # written by the agents, confirmed to change behaviour, but judged NOT to break the property as stated: not kept
 REJECTED = {
  "C13d": "--force-create truncates the prior output before it is scanned: the scan then finds nothing in place, so the statement (about locations the scan found) holds vacuously; the author's own notes say so",
  "C09m": "the library writer's de-duplication table keyed by the truncated checksum (the same change as C12i): the chunker's stream - what C09 speaks about - is untouched; with 1-3 byte hashes two different chunks sharing a truncated hash make an archive ambiguous for every reader anyway (assumption A1). Reported by C12 (archive-differs-between-deliveries), as C12i is",
+ "C09o": "the CLI writer's duplicate lookup returns a stale index for the pattern A B A A: the archive's rebuild order is wrong (reported by C01 roundtrip-failed and C11 archive-nonconforming-rebuild); the chunker's stream, which C09 speaks about, is untouched - same judgement as C09m",
+ "C10p": "each seed is chunked with the maximum chunk size lowered to the biggest chunk still wanted: as with C10m the two streams are no longer chunked under one configuration, so C10's statement (about one chunker configuration) is not what breaks; what breaks is that chunking depends on the state of the clone - reported by C09 (chunks-found-differ-between-seed-file-and-prior-output) and C06 (available-chunk-fetched). The legs it motivated (minimum below the window, an earlier seed never increases what is fetched) stay",
  "C10m": "the chunker configuration read back from an archive forgets the maximum chunk size: each stream still resynchronises under the configuration it is chunked with - C10's statement holds - what breaks is that compress and clone use different configurations, which C11 (reader-reports-different-values), C17 and C09's compress-vs-clone differential leg report; a bound-based C10 leg that would flag it (average == maximum chunk size) raised an alarm on the unchanged tree, where such streams legitimately do not resynchronise, and was dropped before it was committed",
  "C14c": "an archive without a compression sub-message is accepted and cloned correctly instead of being refused: the change moves the line between valid and invalid archives (proto3 reads a missing sub-message as defaults), it does not touch an output on a refusal",
 }
 rows = []
 for pid in [f"C{i:02d}" for i in range(1, 18)]:
-    for v in "abcdefghijklmn":
+    for v in "abcdefghijklmnop":
         d = f"/root/work/seed/{pid}"
         if not os.path.exists(f"{d}/{v}.eval.json"):
             continue
@@ -149,7 +162,7 @@ for pid in [f"C{i:02d}" for i in range(1, 18)]:
         key = f"{pid}{v}"
         fpj = f"{d}/{v}.trial.quick.firstpass.json"
         missed = key in FIRST_PASS_MISSED
-        if v in "cdefghijklmn" and os.path.exists(fpj):
+        if v in "cdefghijklmnop" and os.path.exists(fpj):
             fp = json.load(open(fpj))
             missed = fp.get(pid, {}).get("rc") != 1
             meta["first_pass_checks_commit"] = ("49a2c6c (the checks as they stood before the second round of seeded changes)" if v in "cd"
@@ -157,9 +170,10 @@ for pid in [f"C{i:02d}" for i in range(1, 18)]:
                                                 else "f656d4f (the checks as they stood before the fourth round of seeded changes)" if v in "gh"
                                                 else "c549579 (the checks as they stood before the fifth round of seeded changes)" if v in "ij"
                                                 else "b4f1cb5 (the checks as they stood before the sixth round of seeded changes)" if v in "kl"
-                                                else "de9091c (the checks as they stood before the seventh round of seeded changes)")
+                                                else "de9091c (the checks as they stood before the seventh round of seeded changes)" if v in "mn"
+                                                else "073c117 (the checks as they stood before the eighth round of seeded changes)")
         if missed:
-            meta["first_pass"] = "missed by the target property's check; strengthened: " + FIRST_PASS_MISSED.get(key, ROUND2_FIX.get(key, ROUND3_FIX.get(key, ROUND4_FIX.get(key, ROUND5_FIX.get(key, ROUND6_FIX.get(key, ROUND7_FIX.get(key, "see DESIGN.md section 9")))))))
+            meta["first_pass"] = "missed by the target property's check; strengthened: " + FIRST_PASS_MISSED.get(key, ROUND2_FIX.get(key, ROUND3_FIX.get(key, ROUND4_FIX.get(key, ROUND5_FIX.get(key, ROUND6_FIX.get(key, ROUND7_FIX.get(key, ROUND8_FIX.get(key, "see DESIGN.md section 9"))))))))
         else:
             meta["first_pass"] = "caught by the target property's check as it stood when the change was written"
         json.dump(meta, open(meta_p, "w"), indent=1)
